@@ -207,8 +207,8 @@ Print Assumptions C04_colours_read_back.
    hostile; a line is a piece between two line feeds), every field of the six
    simple sections of the decoded map holds a representable value: strings
    are trimmed and free of line breaks, numbers lie within the parse limits,
-   clamped values within their clamp range, enums are enum values, breaks end
-   after they start, colour names are distinct keys, sample banks are banks.
+   clamped values within their clamp range, enums are enum values, breaks do
+   not end before they start, colour names are distinct keys, sample banks are banks.
    One exception (known finding D23): the file names may contain "//". *)
 Theorem C04_decode_image_inv :
   forall dist lines m,
